@@ -54,6 +54,7 @@ theorem run_start_count_c2c (P : Prims) (L r : ℚ) (n : ℕ) :
     run P (relEnv ⟨.start, .count, .c2c⟩ L n r) body_start_count_c2c = startCountC2c L n r := by
   by_cases hL : L ≤ 0 <;> by_cases hn : n = 0 <;> by_cases hr : r = 0 <;> by_cases hc : TOL < absR (r - 1) <;>
     simp only [body_start_count_c2c, startCountC2c] <;> run_simp
+  all_goals (split_ifs <;> first | rfl | (congr 1; ring))
 
 theorem run_start_end_total (P : Prims) (L e T : ℚ) :
     run P (relEnv ⟨.start, .end_, .total⟩ L e T) body_start_end_total = startEndTotal L e T := by
